@@ -25,6 +25,9 @@ def _nested(tier):
     EX = ("dedup", ("proj", ("sel", Y, K), ()))
     progs += [("join", X, EX, None), ("join", EX, X, None), ("join", X, ("dedup", ("proj", Y, ())), None), ("dedup", ("proj", ("sel", X, K), ())),
               ("chain", ("dedup", ("proj", ("sel", X, K), ())), ("proj", D0, ())), ("join", ("sel", X, K), EX, None)]
+    # one relation object in two places of the tree: a verdict about one occurrence must not leak to the other
+    for doomed_side in (("slice", X, 0, 0), ("sel", X, ("plit", False)), ("sel", X, K), ("slice", X, "$k1s", "$k1s")):
+        progs += [("chain", doomed_side, X), ("chain", X, doomed_side), ("chain", ("chain", doomed_side, X), Y), ("dedup", ("chain", doomed_side, X))]
     G = ("gt", ("ref", "b"), ("lit", "$k1"))
     F, T = ("plit", False), ("plit", True)
     preds = [("or", G, F), ("or", G, ("not", T)), ("and", ("or", G, F), K), ("not", ("or", G, F)), ("or", F, G), ("and", K, ("or", F, F)),
@@ -41,7 +44,7 @@ def _nested(tier):
     for pr in preds:
         progs += [("sel", X, pr), ("slice", ("sel", X, pr), 0, 1), ("chain", ("sel", X, pr), D0), ("join", X, Z, pr)]
     n = 2 if tier == "quick" else 3
-    return [{"eng": ("it1" if "join" not in repr(p) else "sq"), "prog": p, "params": ({"$k1": [None, None]} if "$k1" in repr(p) else {}), "cons": [], "n": n, "labels": ["nested"]}
+    return [{"eng": ("it1" if "join" not in repr(p) else "sq"), "prog": p, "params": {**({"$k1": [None, None]} if "'$k1'" in repr(p) else {}), **({"$k1s": [0, 3]} if "$k1s" in repr(p) else {})}, "cons": [], "n": n, "labels": ["nested"]}
             for p in progs]
 
 
